@@ -21,7 +21,7 @@ import (
 func init() {
 	core.Register(&core.Prop{
 		ID: "C15",
-		Rule: "TLC enumerates REPL histories over {var v/w of type int|string|T, const c, func f, type T in three field layouts, failing inputs of five kinds aimed at existing or new names}; after every step all names are read back; " +
+		Rule: "TLC enumerates REPL histories over {var v/w of type int|string|T, const c, func f, type T in three field layouts, failing inputs of eight kinds (among them redefinitions of f with another signature and of c with another type, inside an input that fails) aimed at existing or new names}; after every step all names are read back; " +
 			"non-trivial = the history contains a failing input or a redefinition after at least one declaration; distinct by history",
 		Run:      runC15,
 		Replay:   replayC15,
@@ -50,7 +50,7 @@ type c15Rec struct {
 }
 
 func c15Cfg(maxSteps int, sticks bool, invs string) string {
-	return fmt.Sprintf("SPECIFICATION Spec\nCONSTANTS\n MaxSteps = %d\n FailKinds = {\"parse\",\"type\",\"second\",\"funcbody\",\"typedecl\"}\n FailedCompileSticks = %s\n EmitOn = TRUE\n EmitAt = %d\nINVARIANTS %s\n",
+	return fmt.Sprintf("SPECIFICATION Spec\nCONSTANTS\n MaxSteps = %d\n FailKinds = {\"parse\",\"type\",\"second\",\"funcbody\",\"typedecl\",\"funcsig\",\"funcsig2\",\"constre\"}\n FailedCompileSticks = %s\n EmitOn = TRUE\n EmitAt = %d\nINVARIANTS %s\n",
 		maxSteps, strings.ToUpper(fmt.Sprint(sticks)), maxSteps, invs)
 }
 
@@ -97,6 +97,12 @@ func c15Source(op *c15Op, cur map[string]c15Bind) string {
 			return fmt.Sprintf("func %s() int { ev(\"ran\"); return undefinedName }", op.N)
 		case "typedecl":
 			return fmt.Sprintf("type %s struct{ A undefinedType }", op.N)
+		case "funcsig":
+			return fmt.Sprintf("func %s(a, b string) int { ev(\"ran\"); return undefinedName }", op.N)
+		case "funcsig2":
+			return fmt.Sprintf("func %s(a string) string { return a }; var zz int = undefinedName", op.N)
+		case "constre":
+			return fmt.Sprintf("const %s = \"s\"; var zz int = undefinedName", op.N)
 		}
 	}
 	return ""
